@@ -194,11 +194,43 @@ def _same_owner(entry_fn, fname, site_fn):
     return eb.rsplit('::', 1)[0] == fb.rsplit('::', 1)[0] and eb.count('::') == fb.count('::')
 
 
+def _alias_names(fname, site):
+    """names under which a site's function may be listed: a closure of a helper that was inlined (rules/..inline.py) is
+    also a closure of the functions the helper was inlined into"""
+    out = [fname]
+    facts = getattr(site.get('fn'), 'facts_ref', None)
+    inl = getattr(facts, 'inlined', None) if facts is not None else None
+    if inl and '::{closure' in fname:
+        base, _, rest = fname.partition('::{closure')
+        seen = set()
+        work = [base]
+        while work:
+            b = work.pop()
+            for caller, _blk in inl.get(b, ()):
+                if caller not in seen:
+                    seen.add(caller)
+                    work.append(caller)
+        for c in sorted(seen):
+            out.append(c + '::{closure' + rest)
+            # closure numbering differs between the helper and its new home: any closure of the caller
+            out.append(c + '::{closure#*}')
+    return out
+
+
 def table_lookup(table, fname, site, config=None):
-    e = _table_lookup(table, fname, site, config, exact=True)
-    if e is None:
-        e = _table_lookup(table, fname, site, config, exact=False)
-    return e
+    for nm in _alias_names(fname, site):
+        if nm.endswith('::{closure#*}'):
+            pref = nm[:-len('#*}')]
+            for e0 in table:
+                if e0['fn'].startswith(pref):
+                    e = _table_lookup(table, e0['fn'], site, config, exact=True)
+                    if e is not None:
+                        return e
+            continue
+        e = _table_lookup(table, nm, site, config, exact=True)
+        if e is not None:
+            return e
+    return _table_lookup(table, fname, site, config, exact=False)
 
 
 def _table_lookup(table, fname, site, config, exact):
